@@ -117,7 +117,9 @@ Verdict(c, p)  == VerdictD(c, p, Deviations)       \* as coded
 Intended(c, p) == VerdictD(c, p, {})               \* what a maintainer would want
 \* number of top-level members a union invokes (0 for the other checkers: nothing to count)
 Calls(c, p) == IF c.fn = "union" THEN UnionCalls([i \in 1..Len(c.mem) |-> Verdict(c.mem[i], p)]) ELSE 0
-Out(c, p) == [v |-> Verdict(c, p), calls |-> Calls(c, p)]
+\* what a conforming library may produce: v (as coded today) or alt (the intention: what it answers once a deviation is
+\* repaired).  Deviations widen, never narrow: both are refusals, see P_DevBounded.
+Out(c, p) == [v |-> Verdict(c, p), calls |-> Calls(c, p), alt |-> Intended(c, p)]
 
 \* ---------------------------------------------------------------- packets the executor can build
 WellFormed(p) ==
